@@ -288,13 +288,13 @@ class AliasTwin(BoundedCheck):
         def bad(clause, sig, detail, expected, observed, ob=''):
             out.append(Violation(clause, sig, dict(case, detail=str(detail)), expected, observed, ob))
         span = list(range(2000, 2004))
-        signal.signal(signal.SIGALRM, _alarm)
-        signal.alarm(5)
+        signal.signal(signal.SIGVTALRM, _alarm)          # 5 s of this process's processor time (not wall-clock: the machine may be busy)
+        signal.setitimer(signal.ITIMER_VIRTUAL, 5.0)
         try:
             try:
                 m = Aliased(span, G=2.0)
             except _Timeout:
-                bad('a model with aliases (incl. self-maps and aliases of aliases) can be constructed', 'c18.constructor-hangs', amap, 'instance', 'no return within 5 s', 'variant')
+                bad('a model with aliases (incl. self-maps and aliases of aliases) can be constructed', 'c18.constructor-hangs', amap, 'instance', 'no return within 5 s of processor time', 'variant')
                 return out
             except ValueError as ex:
                 cyc = self.cyclic({k: v for k, v in amap.items() if k != v})
@@ -304,7 +304,7 @@ class AliasTwin(BoundedCheck):
                 bad('an acyclic alias map is accepted', 'c18.constructor-rejects', amap, 'instance', str(ex)[:60])
                 return out
         finally:
-            signal.alarm(0)
+            signal.setitimer(signal.ITIMER_VIRTUAL, 0)
         clean = {k: v for k, v in amap.items() if k != v}
         pref_targets = [self.resolve(clean, p) for p in pref]
         ambiguous = len(set(pref_targets)) != len(pref_targets)
